@@ -2,7 +2,7 @@
 Require Extraction.
 Require Import ExtrOcamlBasic.
 From Coq Require Import ZArith QArith List.
-From Pandora Require Import Lib.Value Lib.Arr Lib.Blocks Model.Filters Gen.Constants.
+From Pandora Require Import Lib.Value Lib.Arr Lib.Blocks Model.Filters Model.FiltersCheck Gen.Constants.
 Import ListNotations.
 Open Scope Z_scope.
 
@@ -34,6 +34,7 @@ Definition blk (b0 dflt : Z) : Z := if b0 =? 0 then dflt else b0.
    fid 3: median_for_intervals
                            (B w ny nx reg disp inf sup mask), reg = () | (inf2 sup2 regmask)
                                                                        -> (disp inf sup mask)
+   fid 5 / 6: spec checkers (Model/FiltersCheck.v), see below
    B = 0 on the wire: the block size found in the source (Gen/Constants.v) *)
 Definition dispatch (fid : Z) (v : value) : value :=
   match fid with
@@ -76,6 +77,18 @@ Definition dispatch (fid : Z) (v : value) : value :=
     let ny := as_z (vnth 2 v) in
     let nx := as_z (vnth 3 v) in
     VL [enc_map ny nx (median_filter B w ny nx (dec_map (vnth 4 v)))]
+  | 5 => (* the boolean Spec of the median step applied to an (input, output) pair of the REAL code:
+            (rad ny nx disp mask disp' mask') -> 1 | 0 *)
+    let rad := as_z (vnth 0 v) in
+    let ny := as_z (vnth 1 v) in
+    let nx := as_z (vnth 2 v) in
+    of_b (median_step_spec_b msk_pixel_invalid rad ny nx (dec_map (vnth 3 v)) (dec_zmap (vnth 4 v))
+                             (dec_map (vnth 5 v)) (dec_zmap (vnth 6 v)))
+  | 6 => (* the boolean Spec of the array-level median (interval-bound bands): (rad ny nx data out) -> 1 | 0 *)
+    let rad := as_z (vnth 0 v) in
+    let ny := as_z (vnth 1 v) in
+    let nx := as_z (vnth 2 v) in
+    of_b (median_map_spec_b rad ny nx (dec_map (vnth 3 v)) (dec_map (vnth 4 v)))
   | _ => VL [VZ (-1)]
   end.
 
